@@ -81,3 +81,66 @@ Theorem interleaving_independent : forall client fs fs' s st1 a1 st2 a2,
   completions_of s a1 = completions_of s a2.
 Proof. exact interleaving_independent_proof. Qed.
 Print Assumptions interleaving_independent.
+
+(* ---- L3: the retry collector.  For ALL action lists around it (mid, mid2: anything that does not name n):
+   a retryable completion (REFUSED_STREAM / GOAWAY NO_ERROR) followed by a new attempt with the same test name
+   and that attempt's completion delivers exactly the retry's trace for n; the refused attempt's never. *)
+Theorem retry_yields_retry_trace : forall r n s1 t1 mid mid2 s2 t2,
+  rc_wf r -> retryable (t_err t1) = true -> t_name t1 = n -> t_name t2 = n -> retryable (t_err t2) = false ->
+  Forall (quiet n) mid -> Forall (quiet n) mid2 ->
+  delivered n (rc_run r (CComplete s1 t1 :: mid ++ CNew n :: mid2 ++ [CComplete s2 t2])) = delivered n r ++ [t2].
+Proof. exact retry_yields_retry_trace_proof. Qed.
+Print Assumptions retry_yields_retry_trace.
+
+(* without a retry the parked trace is delivered exactly once, by the timer or when the connection ends *)
+Theorem unretried_delivered_once : forall r n s1 t1 mid fin,
+  rc_wf r -> retryable (t_err t1) = true -> t_name t1 = n -> Forall (quiet n) mid ->
+  fin = CTimesUp n \/ fin = CCancel ->
+  delivered n (rc_run r (CComplete s1 t1 :: mid ++ [fin])) = delivered n r ++ [t1] /\
+  w_get n (r_wait (rc_run r (CComplete s1 t1 :: mid ++ [fin]))) = None.
+Proof. exact unretried_delivered_once_proof. Qed.
+Print Assumptions unretried_delivered_once.
+
+(* the collector states that occur are well-formed *)
+Theorem collector_wf : forall l, rc_wf (rc_run rc_init l).
+Proof. exact collector_wf_proof. Qed.
+Print Assumptions collector_wf.
+
+(* ---- the hypotheses are inhabited, the statements are not vacuous ---- *)
+Definition ex_dec : list bytes -> bytes -> option (list field) :=
+  fun _ blk => Some [(bs ":method", bs "POST"); (bs ":path", bs "/s/M"); (bs "x-test-case-name", blk)].
+(* HEADERS (END_HEADERS|END_STREAM) on stream 1 with the 1-byte block "a", cut in the middle of the frame header *)
+Definition ex_frame : bytes := [0; 0; 1; 1; 5; 0; 0; 0; 1; 97].
+Example ex_chunks_emit :
+  snd (ft_feed ex_dec (ft_init false) [firstn 4 ex_frame; skipn 4 ex_frame]) =
+  [FHeaders 1 true [(bs ":method", bs "POST"); (bs ":path", bs "/s/M"); (bs "x-test-case-name", [97])]].
+Proof. vm_compute. reflexivity. Qed.
+(* a header block continued in a CONTINUATION frame is one frame for the stream layer *)
+Example ex_continuation :
+  snd (ft_trace ex_dec (ft_init false) ([0; 0; 1; 1; 1; 0; 0; 0; 1; 97] ++ [0; 0; 1; 9; 4; 0; 0; 0; 1; 98])) =
+  [FHeaders 1 true [(bs ":method", bs "POST"); (bs ":path", bs "/s/M"); (bs "x-test-case-name", [97; 98])]].
+Proof. vm_compute. reflexivity. Qed.
+(* a malformed frame (DATA on stream 0) breaks the direction, nothing else *)
+Example ex_broken : f_broken (fst (ft_trace ex_dec (ft_init false) [0; 0; 0; 0; 0; 0; 0; 0; 0])) = true.
+Proof. vm_compute. reflexivity. Qed.
+(* two interleaved streams: each completes its own trace *)
+Definition ex_h (s : N) (n : bytes) := FHeaders s true [(bs ":path", bs "/p"); (bs "x-test-case-name", n)].
+Definition ex_r (s : N) := FHeaders s true [(bs ":status", bs "200")].
+Example ex_two_streams :
+  match sm_run true sm_init [(true, ex_h 1 [97]); (true, ex_h 3 [98]); (false, ex_r 3); (false, ex_r 1)] with
+  | Some (st, acts) =>
+    map t_name (completions_of 1 acts) = [[97]] /\ map t_name (completions_of 3 acts) = [[98]] /\ m_streams st = []
+  | None => False
+  end.
+Proof. vm_compute. repeat split. Qed.
+(* a stream without test name completes nothing; a reset before response headers completes the trace *)
+Example ex_unnamed :
+  match sm_run true sm_init [(true, FHeaders 1 true [(bs ":path", bs "/p")]); (false, ex_r 1); (false, ex_r 1)] with
+  | Some (st, acts) => completions_of 1 acts = [] | None => False end.
+Proof. vm_compute. reflexivity. Qed.
+Example ex_reset :
+  match sm_run true sm_init [(true, ex_h 1 [97]); (false, FRst 1 7)] with
+  | Some (st, acts) => map t_err (completions_of 1 acts) = [EStream 7] | None => False end.
+Proof. vm_compute. reflexivity. Qed.
+Example ex_quiet : quiet [97] (CNew [98]) /\ rc_wf rc_init.
+Proof. split; [discriminate|exact rc_init_wf]. Qed.
